@@ -443,9 +443,10 @@ unsafe fn dispose_general_node<T: RcObject>(
 
     #[cfg(feature = "circ_verif")]
     crate::verif::yp(crate::verif::site::DISPOSE_LOAD, &rc.state as *const AtomicU64 as usize);
-    let state = State::from_raw(rc.state.load(Ordering::SeqCst));
+    let mut state = State::from_raw(rc.state.load(Ordering::SeqCst));
     let node_epoch = state.epoch();
-    debug_assert_eq!(state.strong(), 0);
+    // A child may have been upgraded since the cascade brought its count to zero; see below.
+    debug_assert!(depth > 0 || state.strong() == 0);
 
     let curr_epoch = global_epoch();
     let modu: Modular<EPOCH_WIDTH> = Modular::new(curr_epoch as isize + 1);
@@ -455,6 +456,28 @@ unsafe fn dispose_general_node<T: RcObject>(
     // old enough, `modu.le` may return false.
     if depth == 0 || modu.le(node_epoch as _, curr_epoch as isize - 3) {
         // The current node is immediately reclaimable.
+        if depth > 0 {
+            // Unlike a root, a child reached by the cascade is not marked as destructed yet, so
+            // a weak upgrade could still succeed on it, now or after it has been dropped. Mark
+            // it atomically with observing the zero count, exactly as `try_destruct` does.
+            loop {
+                if state.strong() > 0 {
+                    // An upgrade saw the zero count first and added the token for a pending
+                    // destruction attempt. This cascade is that attempt: consume the token.
+                    RcInner::decrement_strong(rc, 1, Some(guard));
+                    return;
+                }
+                match rc.state.compare_exchange(
+                    state.as_raw(),
+                    state.with_destructed(true).as_raw(),
+                    Ordering::SeqCst,
+                    Ordering::SeqCst,
+                ) {
+                    Ok(_) => break,
+                    Err(curr) => state = State::from_raw(curr),
+                }
+            }
+        }
         #[cfg(feature = "circ_verif")]
         crate::verif::ev(crate::verif::kind::RECLAIM_NOW, rc as *mut RcInner<T> as usize, depth, curr_epoch);
         rc.data_mut().pop_edges(&mut outgoings);
